@@ -50,7 +50,7 @@ ASSUMPTIONS = ["integer index arithmetic modelled by mathematical integers (z3 I
                "reference convention (the density plots and filters of pyMOTO rely on it)",
                "local node order as documented in the class docstring: local node l sits at corner "
                "(l&1, (l>>1)&1, (l>>2)&1) of the element"]
-ITEM_TIMEOUT = {"quick": 110, "thorough": 600}
+ITEM_TIMEOUT = {"quick": 240, "thorough": 600}
 REPLAYS_PER_GROUP = 2
 
 
